@@ -153,6 +153,8 @@ class _Fn:
             e = e.args[0]
         else:
             return False
+        if isinstance(e, ast.Name) and e.id not in self.locs and e.id in self.fi.module.globals:
+            e = self.fi.module.globals[e.id]   # a module-level table of integer literals (`_DIAGONAL_POINT = ((0, 0),)`)
         return isinstance(e, (ast.List, ast.Tuple)) and bool(e.elts) and all(
             self.intlit(x) or (isinstance(x, (ast.List, ast.Tuple)) and x.elts and all(self.intlit(y) for y in x.elts)) for x in e.elts)
 
@@ -174,10 +176,12 @@ class _Fn:
                 if isinstance(t, (ast.Tuple, ast.List)):
                     flat = list(t.elts)
                     if any(isinstance(x, ast.Name) and x.id == nme for x in flat):
+                        pos_ = [k for k, x in enumerate(flat) if isinstance(x, ast.Name) and x.id == nme][0]
                         if isinstance(a.value, (ast.Tuple, ast.List)) and len(a.value.elts) == len(flat) \
                                 and not any(isinstance(x, ast.Starred) for x in flat + list(a.value.elts)):
-                            return a.value.elts[[k for k, x in enumerate(flat) if isinstance(x, ast.Name) and x.id == nme][0]]
-                        return el(a.value)
+                            return a.value.elts[pos_]
+                        # position k of what is unpacked (a row of an array; the k-th value a helper hands back)
+                        return ast.Subscript(a.value, ast.Constant(pos_), ast.Load())
             return None
         if isinstance(a, ast.AnnAssign) and isinstance(a.target, ast.Name) and a.target.id == nme:
             return a.value
@@ -220,6 +224,9 @@ class _Fn:
                 return False
         if isinstance(e, ast.Name):
             return self.name_definite(e.id, at)
+        if isinstance(e, ast.Subscript) and isinstance(e.value, ast.Call) and isinstance(e.slice, ast.Constant) \
+                and isinstance(e.slice.value, int) and self.p.functions.get(self.res(e.value.func) or "") is not None:
+            return self._helper_returns_definite(e.value, e.slice.value, at, depth)
         if isinstance(e, ast.Subscript):
             return self.definite(e.value, at, depth + 1)
         if isinstance(e, ast.Attribute) and e.attr == "T":
@@ -248,10 +255,57 @@ class _Fn:
                 return self.definite(first, at, depth + 1)
             if t in ("builtins.list", "builtins.sorted", "builtins.tuple", "builtins.reversed") and e.args:
                 return self.definite(e.args[0], at, depth + 1)
+            if t is not None and t in self.p.functions:
+                return self._helper_returns_definite(e, None, at, depth)
             if isinstance(e.func, ast.Attribute) and t is None:
                 if e.func.attr in KEEP_DTYPE_METHODS | {"pop", "take", "compress"} and not _has_dtype(e):
                     return self.definite(e.func.value, at, depth + 1)
         return False
+
+    def _helper_returns_definite(self, call: ast.Call, k, at, depth) -> bool:
+        """a helper of the package hands back (as its value, or as position k of the tuple it returns) an array that still has
+        the dtype of an argument — and that argument is definite here.  Decided on the helper with exactly the parameters that
+        receive definite arguments taken as array parameters; every `return` must agree."""
+        if depth > 6:
+            return False
+        g = self.p.functions.get(self.res(call.func) or "")
+        if g is None or not isinstance(g.node, (ast.FunctionDef, ast.AsyncFunctionDef)) or g.cls is not None:
+            return False
+        if any(isinstance(x, ast.Starred) for x in call.args) or any(kw.arg is None for kw in call.keywords):
+            return False
+        if any(isinstance(y, (ast.Yield, ast.YieldFrom)) for y in ast.walk(g.node)):
+            return False
+        pn = [x.arg for x in g.node.args.posonlyargs + g.node.args.args]
+        given = {nme for nme, e_ in list(zip(pn, call.args)) + [(kw.arg, kw.value) for kw in call.keywords]
+                 if self.definite(e_, at, depth + 1)}
+        if not given:
+            return False
+        # an explicit dtype handed to the helper (dtype=float) may be what it converts with: a parameter named like a dtype
+        # that receives something is left to the helper's own text (np.array(x, dtype=dtype) is not a dtype-keeping copy)
+        key = (g.qualname, tuple(sorted(given)), k)
+        memo = self.p.__dict__.setdefault("_ia_helper_memo", {})
+        if key in memo:
+            return memo[key]
+        memo[key] = False
+        G = _Fn(self.p, g, given)
+        rets = [r for r in ast.walk(g.node) if isinstance(r, ast.Return) and id(r) not in G.inner]
+        ok = bool(rets)
+        for r in rets:
+            v = r.value
+            if v is None:
+                ok = False
+                break
+            if k is not None:
+                if isinstance(v, ast.Tuple) and k < len(v.elts):
+                    v = v.elts[k]
+                else:
+                    ok = False
+                    break
+            if not G.definite(v):
+                ok = False
+                break
+        memo[key] = ok
+        return ok
 
     def _attr_stored_in(self, attr: str) -> bool:
         return any(isinstance(t, ast.Attribute) and isinstance(t.value, ast.Name) and t.value.id == "self" and t.attr == attr
